@@ -53,10 +53,13 @@ var c10Keys = []string{"session=B,prices=B", "session=B,prices=A", "session=A,pr
 var c10KeyRPCs = map[string]bool{"roots": true, "append": true, "free": true, "fund": true, "replenish": true, "replpools": true, "form": true, "renew": true, "refresh-full": true, "refresh-partial": true}
 
 var c10Args = map[string][]string{
-	"roots":  {"empty-contract", "beyond-end", "offset-beyond-end", "zero-length", "zero-length-empty-contract", "huge-length"},
-	"read":   {"beyond-sector", "offset-beyond-sector", "zero-length", "unaligned-end", "overflowing-range"},
-	"free":   {"index-beyond-end", "index-equals-count", "empty-contract", "more-indices-than-sectors", "huge-index", "no-indices"},
-	"append": {"no-sectors"},
+	"roots":     {"empty-contract", "beyond-end", "offset-beyond-end", "zero-length", "zero-length-empty-contract", "huge-length"},
+	"read":      {"beyond-sector", "offset-beyond-sector", "zero-length", "unaligned-end", "overflowing-range"},
+	"free":      {"index-beyond-end", "index-equals-count", "empty-contract", "more-indices-than-sectors", "huge-index", "no-indices"},
+	"append":    {"no-sectors"},
+	"fund":      {"no-deposits"},
+	"replenish": {"no-accounts"},
+	"replpools": {"no-accounts"},
 }
 
 func c10ArgsDegenerate(rpc, args string) bool {
@@ -106,6 +109,9 @@ func genC10(t *rapid.T) C10Case {
 	c.Mut.Kind = rapid.SampledFrom(kinds[c.Mut.Msg]).Draw(t, "kind")
 	if c.Mut.Kind == "stall" {
 		c.Mut.Kind = "close" // each stall costs the compressed timeout; the enumeration covers every message
+	}
+	if (c.RPC == "free" || c.RPC == "append") && rapid.IntRange(0, 4).Draw(t, "degenerate") == 0 {
+		c.Args = map[string]string{"free": "no-indices", "append": "no-sectors"}[c.RPC]
 	}
 	c.Mut.A = rapid.IntRange(0, 5000).Draw(t, "a")
 	c.Mut.B = rapid.IntRange(0, 300).Draw(t, "b")
@@ -183,6 +189,9 @@ func newC10Env(c C10Case, cs consensus.State) *c10Env {
 	e.host = rhpc.NewByzHost(c10HostKey, cs, e.prices, c.Mut)
 	if c.Mut.Kind == "stall" {
 		e.host.T.DeadlineScale = c10StallScale
+	}
+	if c.Args != "" {
+		e.host.PlayAlong = true
 	}
 	n := mod(c.N, 401)
 	for i := 0; i < min(max(n, 3), rhpc.PoolSize); i++ {
@@ -301,7 +310,10 @@ func runC10With(c C10Case, cs *kit.CaseStats, raw func(idx int, wire []byte) []b
 	var out c10Outcome
 	var env *c10Env
 	formation := c.RPC == "form" || c.RPC == "renew" || c.RPC == "refresh-full" || c.RPC == "refresh-partial"
-	if !formation && c.Args != "" {
+	// a degenerate argument (nothing to free / append) combined with a response
+	// mutation goes through the ordinary mutation path and oracle
+	degenerateMut := c.Args != "" && c10ArgsDegenerate(c.RPC, c.Args) && (c.Mut.Kind != "" || raw != nil)
+	if !formation && c.Args != "" && !degenerateMut {
 		return runC10Args(ctx, c, cs)
 	}
 	exec := func(ctx context.Context) (env *c10Env, out c10Outcome, cleanup func(), err error) {
@@ -416,6 +428,9 @@ func runC10With(c C10Case, cs *kit.CaseStats, raw func(idx int, wire []byte) []b
 	default:
 		cs.NonTrivial()
 		cs.Class(c.RPC + "/" + label)
+		if c.Args != "" {
+			cs.Class(c.RPC + "/args=" + c.Args + "+mutation")
+		}
 		if out.err == nil {
 			cs.Class("accepted:" + c.RPC + "/" + label)
 		} else {
@@ -540,6 +555,24 @@ func runC10Args(ctx context.Context, c C10Case, cs *kit.CaseStats) error {
 				violation = e.checkRevision("RPCFreeSectors", e.rev, res.Revision, types.ZeroCurrency)
 			}
 		}
+	case "fund":
+		var res rhp4.RPCFundAccountResult
+		res, err = rhp4.RPCFundAccounts(ctx, t, e.cs, e.signer, e.contract, nil)
+		if err == nil {
+			violation = fmt.Errorf("RPCFundAccounts(no deposits) returned nil (revision %d): there is nothing to fund", res.Revision.RevisionNumber)
+		}
+	case "replenish":
+		var res rhp4.RPCReplenishAccountsResult
+		res, err = rhp4.RPCReplenishAccounts(ctx, t, rhp4.RPCReplenishAccountsParams{Target: types.Siacoins(5), Contract: e.contract}, e.cs, e.signer)
+		if err == nil {
+			violation = fmt.Errorf("RPCReplenishAccounts(no accounts) returned nil (revision %d)", res.Revision.RevisionNumber)
+		}
+	case "replpools":
+		var res rhp4.RPCReplenishPoolsResult
+		res, err = rhp4.RPCReplenishPools(ctx, t, rhp4.RPCReplenishPoolsParams{Target: types.Siacoins(5), Contract: e.contract}, e.cs, e.signer)
+		if err == nil {
+			violation = fmt.Errorf("RPCReplenishPools(no pools) returned nil (revision %d)", res.Revision.RevisionNumber)
+		}
 	case "append":
 		var res rhp4.RPCAppendSectorsResult
 		res, err = rhp4.RPCAppendSectors(ctx, t, e.signer, e.cs, e.prices, e.contract, nil)
@@ -651,6 +684,9 @@ func runC10Plain(ctx context.Context, c C10Case, e *c10Env) (out c10Outcome) {
 			}
 			req = append(req, s.Root)
 		}
+		if c.Args == "no-sectors" {
+			req = nil // nothing to append: the root must stay what it is
+		}
 		res, err := rhp4.RPCAppendSectors(ctx, t, e.signer, e.cs, e.prices, e.contract, req)
 		out.err = err
 		if err == nil {
@@ -683,6 +719,12 @@ func runC10Plain(ctx context.Context, c C10Case, e *c10Env) (out c10Outcome) {
 		var idx []uint64
 		for i := 0; i < k; i++ {
 			idx = append(idx, uint64(mod(p(c, 1+i)+i*7, n)))
+		}
+		if c.Args == "no-indices" {
+			idx = nil // nothing to free: the root must stay what it is
+			if mod(p(c, 0), 2) == 1 {
+				idx = []uint64{}
+			}
 		}
 		res, err := rhp4.RPCFreeSectors(ctx, t, e.signer, e.cs, e.prices, e.contract, idx)
 		out.err = err
@@ -986,6 +1028,27 @@ func TestC10Enum(t *testing.T) {
 							continue
 						}
 						c := C10Case{RPC: rpc, N: ps.n, P: ps.p, Mut: rhpc.Mut{Msg: msg, Kind: k, A: v[0], B: v[1]}}
+						cs := &kit.CaseStats{}
+						report(c, cs, c10Prop.SafeRun(c, cs))
+					}
+				}
+			}
+		}
+	}
+	// nothing to free / nothing to append, combined with every response mutation
+	for _, rpc := range []string{"free", "append"} {
+		args := map[string]string{"free": "no-indices", "append": "no-sectors"}[rpc]
+		for msg, kinds := range rhpc.Kinds[rpc] {
+			for _, k := range kinds {
+				if !mine() {
+					continue
+				}
+				if k == "stall" {
+					continue
+				}
+				for _, n := range []int{1, 4, 7} {
+					for v := 0; v < 2; v++ {
+						c := C10Case{RPC: rpc, N: n, P: []int{v, 3, 2, 1, 0, v}, Args: args, Mut: rhpc.Mut{Msg: msg, Kind: k, A: 3 * v, B: 77 * v}}
 						cs := &kit.CaseStats{}
 						report(c, cs, c10Prop.SafeRun(c, cs))
 					}
